@@ -1395,6 +1395,7 @@ static void runRpfc(const Case &c) {
         ext += (id ? "," : "") + (s ? "x" + hex(s, strlen((char *)s)) : string("N"));
         delete[] s;
       }
+      ext += ";" + hex(saveImage(d));   // the saved image rides behind the extractions
       emit("RF t=%llu mc=%u bits=%u el=%zu ml=%u bk=%u bs=%u rules=%s hdr=%s st=%s loc=%s abs=%s pre=%s ext=%s", (unsigned long long)rp->terminals,
            (uint)rp->maxchar, d->bitsrp, (size_t)d->numElements(), (uint)d->maxLength(), (uint)d->buckets, (uint)d->bucketsize,
            rules.empty() ? "-" : rules.c_str(), hdr.c_str(), st.c_str(), loc.empty() ? "-" : loc.c_str(), qa.empty() ? "-" : qa.c_str(),
